@@ -13,6 +13,8 @@ use crate::types;
 use crate::types::CommandResult;
 
 pub fn run_script(sh: &mut shell::Shell, args: &Vec<String>) -> i32 {
+    // `set -e` of the caller must survive a `source`; a `set -e` inside this file ends with it
+    let exit_on_error_saved = sh.exit_on_error;
     let src_file = &args[1];
     let full_src_file: String;
     if src_file.contains('/') {
@@ -111,7 +113,7 @@ pub fn run_script(sh: &mut shell::Shell, args: &Vec<String>) -> i32 {
     // which currently set `exit_on_error` at the shell session level,
     // we should instead set in a script-level.
     // Here is a work-around ugly fix.
-    sh.exit_on_error = false;
+    sh.exit_on_error = exit_on_error_saved;
 
     status
 }
